@@ -191,6 +191,37 @@ pub(crate) fn verif_find_start_marker(
     })
 }
 
+/// Verification hook (C10): what the automaton of a custom syntax reports on `a[offset..]`: every
+/// overlapping match in the order in which `find_overlapping` yields them (start, end, pattern
+/// index; offsets relative to `offset`) and `max_pattern_len`.  `None` without an automaton
+/// (default syntax).
+#[cfg(all(feature = "verif_hooks", feature = "custom_syntax"))]
+pub(crate) fn verif_start_marker_matches(
+    a: &str,
+    offset: usize,
+    syntax_config: &SyntaxConfig,
+) -> Option<(Vec<(usize, usize, usize)>, usize)> {
+    let ac = syntax_config.aho_corasick.as_ref()?;
+    let bytes = &a.as_bytes()[offset..];
+    let mut state = aho_corasick::automaton::OverlappingState::start();
+    let mut rv = Vec::new();
+    loop {
+        ac.find_overlapping(bytes, &mut state);
+        match state.get_match() {
+            None => break,
+            Some(m) => rv.push((m.start(), m.end(), m.pattern().as_usize())),
+        }
+    }
+    Some((rv, ac.max_pattern_len()))
+}
+
+/// Verification hook (C10): the identifier scan of the tokenizer (length in bytes of the
+/// identifier `s` starts with), in whichever form the `unicode` feature selects.
+#[cfg(feature = "verif_hooks")]
+pub(crate) fn verif_lex_identifier(s: &str) -> usize {
+    lex_identifier(s)
+}
+
 #[cfg(feature = "unicode")]
 fn lex_identifier(s: &str) -> usize {
     s.chars()
